@@ -80,7 +80,7 @@ def h_judge(ctx: Any, n: int, m: int, impl: str, kind: str, prof: str, valprof: 
     v = ctx.int('v')
     if history and impl == 'py':
         # a judgement must not depend on earlier ones: the sibling patterns are judged first (same variable, and its neighbour)
-        for sib in gens.siblings(p):
+        for sib in gens.siblings(p, ctx):
             for w in (v, v + 1):
                 try:
                     sib.evar_is_free(w)
@@ -124,7 +124,7 @@ def h_notation(ctx: Any, n: int, prof: str = 'meta_nt', history: bool = False, t
     pe = gens.from_term(O.expand(p))
     v = ctx.int('v')
     if history:
-        for sib in gens.siblings(p):
+        for sib in gens.siblings(p, ctx):
             try:
                 sib.evar_is_free(v)
             except Exception:
